@@ -46,10 +46,12 @@ import (
 )
 
 var (
-	workers = flag.Int("workers", 0, "number of model driver processes (0 = min(NumCPU, 16))")
-	budget  = flag.Int("budget", 0, "total number of search nodes the model is asked to replay (0 = tier default)")
-	verbose = flag.Bool("v", false, "print progress to stderr")
-	only    = flag.String("only", "", "run only scripts whose kind has this prefix (diagnostic)")
+	workers    = flag.Int("workers", 0, "number of model driver processes (0 = min(NumCPU, 16))")
+	budget     = flag.Int("budget", 0, "total number of search nodes the model is asked to replay (0 = tier default)")
+	verbose    = flag.Bool("v", false, "print progress to stderr")
+	only       = flag.String("only", "", "run only scripts whose kind has this prefix (diagnostic)")
+	saneStrict = flag.Bool("nmpsane-strict", false, "report every script on which NmpSane fails as a mismatch (broken-correspondence); by default failures are counted in the histogram and the first ones are listed in the notes, because NmpSane does fail on the unchanged engine (forced-mate roots from depth 3 on)")
+	saneOf     = flag.Int("nmpsane", 0, "measure NmpSane (guarded null-move record gives the identical result) on every n-th script besides the mate-band scripts, which are always measured (0 = tier default: 3 quick, 2 thorough; 1 = all; -1 = none)")
 )
 
 const openStop = 4000000000000 // `stop K` with a K no search reaches: a channel that is never closed
@@ -253,6 +255,19 @@ var fixedRoots = []fixed{
 	{"d8", "3r3b/p7/1p3p2/1NPp1k2/1n4p1/P3R1K1/2P5/8 w - - 0 47", nil},
 	{"d8", "3r3b/p7/1p3p2/1NPpkP2/1n4p1/P3R1K1/2P5/8 b - - 4 46", nil},
 	{"zugzwang", "8/8/p1p5/1p5p/1P5p/8/PPP2K1p/4R1rk w - - 0 1", nil},
+	{"mate-band", "6k1/5ppp/8/8/8/8/5PPP/R5K1 w - - 0 1", nil},                                // mate in 1, other moves remain
+	{"mate-band", "r1bqkb1r/pppp1ppp/2n2n2/4p2Q/2B1P3/8/PPPP1PPP/RNB1K1NR w KQkq - 4 4", nil}, // scholar's mate in 1
+	{"mate-band", "2bqkbn1/2pppp2/np2N3/r3P1p1/p2N2B1/5Q2/PPPPKPP1/RNB2r2 w - - 0 1", nil},    // mate in 2 (test suite)
+	{"mate-band", "r2qkb1r/pp2nppp/3p4/2pNN1B1/2BnP3/3P4/PPP2PPP/R2bK2R w KQkq - 1 1", nil},   // mate in 2
+	{"mate-band", "1k5r/pP3ppp/3p2b1/1BN1n3/1Q2P3/P1B5/KP3P1P/7q w - - 1 1", nil},             // mate in 3
+	{"mate-band", "r1b1kb1r/pppp1ppp/5q2/4n3/3KP3/2N3PN/PPP4P/R1BQ1B1R b kq - 0 1", nil},      // mate in 3, black
+	{"mate-band", "6k1/3b3r/1p1p4/p1n2p2/1PPNpP1q/P3Q1p1/1R1RB1P1/5K2 b - - 0 1", nil},        // mate in 3
+	{"mate-band", "7k/8/5K2/8/8/8/8/6R1 w - - 0 1", nil},                                      // KRK, mate in 2
+	{"mate-band", "k7/8/1K6/8/8/8/7Q/8 w - - 0 1", nil},                                       // KQK, several mates in 1
+	{"mate-band", "5rk1/5ppp/8/8/8/8/1Q3PPP/1R4K1 b - - 0 1", nil},                            // quiet, black to move, back ranks
+	{"mate-band", "3k4/8/3K4/8/8/8/8/QQQ5 w - - 0 1", nil},                                    // overwhelming material, many mates
+	{"mate-band", "7k/7p/8/8/8/q7/1q6/4K3 w - - 0 1", nil},                                    // side to move hopelessly behind and about to be mated
+	{"mate-band", "1r5k/6pp/8/8/8/8/qq6/4K2R w K - 0 1", nil},                                 // far behind but with Rh1xh7-style tries
 	{"tiny", "8/8/8/4k3/8/8/4P3/4K3 w - - 0 1", nil},
 	{"tiny", "8/8/8/4k3/8/8/4P3/4K3 b - - 0 1", nil},
 	{"tiny", "8/8/8/4k3/8/8/8/R3K3 w - - 0 1", nil},
@@ -544,6 +559,15 @@ type script struct {
 	total    int
 	skipped  bool
 	shrunk   int
+	guard    bool // also run the guarded record (`gog`): NmpSane measured on every search of the script
+}
+
+// cost is the number of nodes the model replays for the script.
+func (sc *script) cost() int {
+	if sc.guard {
+		return 2 * sc.total
+	}
+	return sc.total
 }
 
 func (sc *script) ops(upto int) []string {
@@ -807,6 +831,9 @@ func scoreText(v int) string { return Score(v).String() }
 // the implementation's canonical text; flags are returned separately.
 func translate(ans string) (canon string, fuelOut, anomaly bool, err error) {
 	parts := strings.Split(ans, " | ")
+	if len(parts) > 3 && strings.HasPrefix(parts[3], "nmpsane=") {
+		parts = parts[:3] // the NmpSane verdict is read by saneVerdict
+	}
 	if len(parts) != 3 {
 		return "", false, false, fmt.Errorf("model answer %q", ans)
 	}
@@ -845,6 +872,20 @@ func translate(ans string) (canon string, fuelOut, anomaly bool, err error) {
 		infos = strings.Join(out, ";")
 	}
 	return head + " | " + infos + " | " + parts[2], h[5] == "1", h[6] == "1", err
+}
+
+// saneVerdict reads the ` | nmpsane=…` suffix of a `gog` answer: checked, held, and the guarded
+// run's head + info lines when it differs.
+func saneVerdict(ans string) (checked, held bool, guarded string) {
+	i := strings.Index(ans, " | nmpsane=")
+	if i < 0 {
+		return false, false, ""
+	}
+	v := ans[i+len(" | nmpsane="):]
+	if v == "1" {
+		return true, true, ""
+	}
+	return true, false, strings.TrimPrefix(v, "0 ")
 }
 
 func diffFields(impl, model string) string {
@@ -1160,6 +1201,31 @@ func (g *gen) generate() {
 		sc.add(gs)
 		g.emit(sc)
 	}
+	// (i) mate band: aims at the precondition of NmpSane (null-move pruning reached with beta <= -Inf+MaxPlies at
+	// d > NMPDepthLimit): roots with a forced mate are searched shallow (the mate score enters the table and
+	// raises alpha into the mate band at the root) and then deeper on the same engine; after the mating move
+	// is found the remaining moves are searched with windows inside the mate band.
+	var mating []*root
+	for _, rt := range p.live {
+		if rt.class == "mate" || rt.class == "mate-band" || rt.class == "heavy" || (rt.class == "few-reply" && rt.check) || rt.class == "kingnet" {
+			mating = append(mating, rt)
+		}
+	}
+	for i := 0; i < T(40, 200) && len(mating) > 0; i++ {
+		rt := g.pick(mating)
+		sc := newScript("mate-band", g.buckets())
+		lo := 2 + r.IntN(2)
+		sc.add(plain(rt, lo))
+		hi := plain(rt, lo+1+r.IntN(3))
+		if r.IntN(3) == 0 {
+			hi.nodes = 200 + r.IntN(4000)
+		}
+		sc.add(hi)
+		if r.IntN(2) == 0 && len(rt.legal) > 0 { // and the successor after a random reply: the mate seen from the other side
+			sc.add(plain(g.e.extend(rt, rt.class, rt.legal[r.IntN(len(rt.legal))]), lo+1))
+		}
+		g.emit(sc)
+	}
 	// (h) very deep searches of positions with a handful of men: the depth-gated rules (reverse futility
 	// d < 8, internal iterative reduction d > 5, late-move reduction table rows up to 12) at their limits
 	for i := 0; i < T(24, 120) && len(p.tiny) > 0; i++ {
@@ -1264,6 +1330,17 @@ func main() {
 		scripts = f
 	}
 
+	every := *saneOf
+	if every == 0 {
+		every = c.Pick(3, 2)
+	}
+	for i, sc := range scripts {
+		sc.guard = strings.HasPrefix(sc.kind, "mate-band") || (every > 0 && i%every == 0)
+		if every < 0 {
+			sc.guard = false
+		}
+	}
+
 	nw := *workers
 	if nw <= 0 {
 		nw = min(runtime.NumCPU(), 16)
@@ -1271,7 +1348,7 @@ func main() {
 	// the model replays about 2 500 nodes per second and process: node budgets per worker
 	limit := *budget
 	if limit == 0 {
-		limit = nw * c.Pick(30000, 500000)
+		limit = nw * c.Pick(45000, 700000)
 	}
 	perScript := c.Pick(12000, 200000)
 	// ---- phase 1: the implementation (fast), in parallel ----
@@ -1303,15 +1380,15 @@ func main() {
 		spent := 0
 		for i, sc := range scripts {
 			idx[i] = i
-			spent += sc.total
+			spent += sc.cost()
 		}
-		sort.SliceStable(idx, func(a, b int) bool { return scripts[idx[a]].total > scripts[idx[b]].total })
+		sort.SliceStable(idx, func(a, b int) bool { return scripts[idx[a]].cost() > scripts[idx[b]].cost() })
 		for _, i := range idx {
 			if spent <= limit {
 				break
 			}
 			scripts[i].skipped = true
-			spent -= scripts[i].total
+			spent -= scripts[i].cost()
 		}
 	}
 
@@ -1328,7 +1405,7 @@ func main() {
 	for i := range order {
 		order[i] = i
 	}
-	sort.SliceStable(order, func(a, b int) bool { return todo[order[a]].total > todo[order[b]].total })
+	sort.SliceStable(order, func(a, b int) bool { return todo[order[a]].cost() > todo[order[b]].cost() })
 	answers := make([][]string, len(todo))
 	t1 := time.Now()
 	{
@@ -1361,6 +1438,9 @@ func main() {
 							lines[j] = "clear"
 						default:
 							lines[j] = st.g.modelLine()
+							if sc.guard {
+								lines[j] = "gog" + lines[j][2:]
+							}
 						}
 					}
 					if m.Dead {
@@ -1383,6 +1463,8 @@ func main() {
 	modelS := time.Since(t1).Seconds()
 
 	// ---- comparison (in generation order: deterministic report) ----
+	saneReported := map[*script]bool{}
+	var saneNotes, saneDiffNotes []string
 	totalNodes := 0
 	for i, sc := range todo {
 		e.r.Count("scripts:"+sc.kind, 1)
@@ -1412,6 +1494,40 @@ func main() {
 				}
 				if anomaly {
 					e.r.Count("model:anomaly-flag", 1)
+				}
+				if checked, held, guarded := saneVerdict(ans); checked {
+					e.r.Count("nmpsane-checked", 1)
+					e.r.Count("nmpsane-checked:"+sc.kind, 1)
+					if held {
+						e.r.Count("nmpsane-held", 1)
+					} else {
+						e.r.Count("nmpsane-failed", 1)
+						e.r.Count("nmpsane-failed:"+sc.kind, 1)
+						uh, gh := strings.Fields(strings.Split(ans, " | ")[0]), strings.Fields(strings.Split(guarded, " | ")[0])
+						if len(uh) >= 3 && len(gh) >= 3 && uh[0] == gh[0] && uh[1] == gh[1] && uh[2] == gh[2] {
+							e.r.Count("nmpsane-failed:but-same-score-move-ponder", 1)
+						} else if len(uh) >= 2 && len(gh) >= 2 && uh[0] == gh[0] && uh[1] == gh[1] {
+							e.r.Count("nmpsane-failed:but-same-score-move", 1)
+						} else {
+							e.r.Count("nmpsane-failed:score-or-move-differs", 1)
+							if len(saneDiffNotes) < 5 {
+								saneDiffNotes = append(saneDiffNotes, fmt.Sprintf("NmpSane fails WITH A DIFFERENT SCORE OR MOVE: %s  ||  unguarded (= search.go): %s  ||  guarded (realCompG): %s",
+									strings.Join(sc.ops(j), " ; "), strings.Join(strings.Split(ans, " | ")[:2], " | "), guarded))
+							}
+						}
+						if !saneReported[sc] {
+							saneReported[sc] = true
+							e.r.Count("nmpsane-failed-scripts", 1)
+							mm := common.Mismatch{Property: "C06", Kind: "broken-correspondence", Ops: sc.ops(j), Impl: impl,
+								Model: "unguarded (= search.go): " + strings.Join(strings.Split(ans, " | ")[:2], " | ") + "  ||  guarded (realCompG): " + guarded,
+								Note:  "script kind " + sc.kind + "; NmpSane fails on this script: null-move pruning fired inside the mate band (the guarded record realCompG, for which the C06 score theorems are proved, searches differently from realComp / search.go; implementation and unguarded model still agree)"}
+							if *saneStrict {
+								e.r.Fail(mm)
+							} else if len(saneNotes) < 5 {
+								saneNotes = append(saneNotes, fmt.Sprintf("NmpSane fails: %s  ||  %s", strings.Join(mm.Ops, " ; "), mm.Model))
+							}
+						}
+					}
 				}
 				if sc.nodes[j] >= 100 {
 					e.r.Nontrivial(sc.steps[j].g.rt.position() + "|" + sc.steps[j].g.String() + "|" + strconv.Itoa(j) + "|" + sc.impl[max(j-1, 0)])
@@ -1447,6 +1563,10 @@ func main() {
 	e.r.Notes = append(e.r.Notes,
 		fmt.Sprintf("%d scripts (%d searches, %d nodes) replayed by %d model processes in %.1f s (%.0f nodes/s per process on average); implementation side %.1f s",
 			len(todo), e.r.Evaluations, totalNodes, nw, modelS, float64(totalNodes)/modelS/float64(nw), implS),
+		fmt.Sprintf("NmpSane (Search.go (realComp K) = Search.go (realCompG K shipped): all fields of the answer and the digest) measured on %d searches: held on %d, failed on %d (in %d scripts); failures are mismatches only with -nmpsane-strict",
+			e.r.Histogram["nmpsane-checked"], e.r.Histogram["nmpsane-held"], e.r.Histogram["nmpsane-failed"], e.r.Histogram["nmpsane-failed-scripts"]),
 		"mismatch classification: failing-input only when a direct C06/C07/C08 check on the implementation fails in the same script; otherwise broken-correspondence")
+	e.r.Notes = append(e.r.Notes, saneDiffNotes...)
+	e.r.Notes = append(e.r.Notes, saneNotes...)
 	e.r.Write(c)
 }
